@@ -43,6 +43,10 @@ def correspond(ctx):
 
 def search(ctx):
     mult = 3 if ctx.escalated else 1
+    from ._adapters2 import SEARCH_ONLY
+
+    for k, ad in SEARCH_ONLY.items():
+        K.search_c02(ctx, ad, ctx.n(30, 400) * mult)
     for k in RW:
         K.search_c02(ctx, ADAPTERS[k], ctx.n(40, 600) * mult)
 
